@@ -1,7 +1,7 @@
 """obligations on the apply_scheme_procedure / eval_expression / eval_tail_expression skeletons, shared by C01, C02, C03, C08"""
 import z3
 
-from ..core import Adt, Lazy, Ref, Cell, SeqObj, Opaque, Unsupported
+from ..core import Adt, Lazy, Ref, Cell, SeqObj, Opaque, Unsupported, StrVal
 from . import skel
 from . import numlib as nl
 
@@ -124,3 +124,266 @@ def spec_apply_scheme(chk, unit_prefix="", want=("fresh", "bind", "order", "tail
     if chk.unit(unit)["panic_outcomes"] == 0:
         chk.notes.append("apply_scheme_procedure: no panic outcome at all - the witness that a non-fitting argument count makes the binding loop fail is missing")
     return st
+
+
+# ================================================================================================ eval_expression
+EVAL_PROBES = [
+    # operands evaluated left to right, each exactly once, operator first
+    ("(define log (make-vector 6 0)) (define n 0) (define (tick k) (vector-set! log n k) (set! n (+ n 1)) k)\n((begin (tick 1) +) (tick 2) (tick 3) (tick 4))\nlog",
+     ["OK I 9", "OK VM 6 I 1 I 2 I 3 I 4 I 0 I 0"]),
+    # only #f is false
+    ("(vector (if 0 1 2) (if '() 1 2) (if \"\" 1 2) (if #f 1 2) (if (vector) 1 2))", ["OK VM 5 I 1 I 1 I 1 I 2 I 1"]),
+    # exactly one arm is evaluated; a missing alternative gives the unspecified value
+    ("(define c 0)\n(if #t (set! c (+ c 1)) (set! c (+ c 10)))\n(if #f (set! c (+ c 100)))\nc", ["OK U", "OK U", "OK I 1"]),
+    # non-procedure operator, unbound variable, assignment to an unbound variable
+    ("(5 1 2)", ["ERR TypeMisMatch"]), ("nosuch", ["ERR UnboundedSymbol"]), ("(set! nosuch 1)", ["ERR UnboundedSymbol"]), ("((lambda (x) (car x)) 5)", ["ERR TypeMisMatch"]),
+    # lexical scope of closures and assignment
+    ("(define x 1) (define (mk) (define x 10) (lambda () (set! x (+ x 1)) x)) (define f (mk))\n(f)\n(f)\nx", ["OK I 11", "OK I 12", "OK I 1"]),
+    # quote and literals are not evaluated
+    ("'(a (b c) 1)", ["OK L 3 Y 61 L 2 Y 62 Y 63 I 1"]), ("(quote x)", ["OK Y 78"]),
+    # apply spreads its last argument
+    ("(apply + 1 2 '(3 4))", ["OK I 10"]), ("(apply - 10 1 '(2 3))", ["OK I 4"]), ("(apply vector 1 2 '(3 4))", ["OK VM 4 I 1 I 2 I 3 I 4"]),
+    # a one-armed if takes its branch for every value other than #f
+    ("(vector (if 0 7) (+ 1 (if '() 7)) (if \"\" 7))", ["OK VM 3 I 7 I 8 I 7"]),
+    ("(define (f) (if 0 7) (if 1 8))\n(f)", ["OK I 8"]), ("(apply (lambda (a . r) r) 1 '(2 3))", ["OK L 2 I 2 I 3"]), ("(apply + 1 2)", ["ERR TypeMisMatch"]),
+    # an error in an operand stops the evaluation of the later ones
+    ("(define c 0)\n(+ 1 (car 5) (begin (set! c 1) 2))\nc", ["OK -", "ERR TypeMisMatch", "OK I 0"]),
+]
+_EP = {}
+
+
+def eval_probe(nat):
+    if id(nat) in _EP:
+        return _EP[id(nat)]
+    from ..harness import hexs
+    res = (False, "native evaluator probes (operand order and multiplicity, truthiness, single arm, error kinds, scope, quote, apply) all behave correctly")
+    for prog, want in EVAL_PROBES:
+        out = [x.strip() for x in nat.cmd("eval %s" % hexs(prog)).split(" ;; ")]
+        got = [(" ".join(o.split()[:2]) if o.startswith("ERR") else o) for o in out[-len(want):]]
+        if got != want:
+            res = (True, "program %r gives %s (expected %s)" % (prog, got, want))
+            break
+    _EP[id(nat)] = res
+    return res
+
+
+def spec_eval_expression(chk, want=("all",)):
+    from ..mir import ENUMS
+    ex = chk.executor(True)
+    nat = chk.ws.runner("dev")
+    unit = "Interpreter::eval_expression (one structural step; sub-evaluations, apply_procedure, environment access stubbed)"
+    chk.region_ns = {}
+    replay = lambda vals: eval_probe(nat)
+    ARMS = ENUMS["ExpressionBody"]
+    BOOL = ENUMS["Value"].index("Boolean")
+    PROC = ENUMS["Value"].index("Procedure")
+
+    def on_path(rv, events, st):
+        chk.path(unit)
+        x = st["x"]
+        envcell = st["envcell"]
+        body = ex.project(x, ("f", 0, "parser::ExpressionBody"))
+        tag = ex.lazy_tag(body)
+        arm = None
+        for i, a in enumerate(ARMS):
+            if ex.ctx.check(tag == i) == z3.sat:
+                arm = a
+                break
+        evs = [e for e in events if e["kind"] == "eval"]
+        oks = [e for e in events if e["kind"] == "eval_ok"]
+        errs = [e for e in events if e["kind"] == "eval_err"]
+        applies = [e for e in events if e["kind"] == "apply"]
+        gets = [e for e in events if e["kind"] == "get"]
+        sets = [e for e in events if e["kind"] == "set"]
+        lits = [e for e in events if e["kind"] == "literal"]
+        post = [z3.BoolVal(all(e["env"] is envcell for e in evs + applies + gets + sets))]
+        is_ok = isinstance(rv, Adt) and rv.variant == "Ok"
+        is_err = isinstance(rv, Adt) and rv.variant == "Err"
+        err_kind = nl.err_kind(ex, rv.fields[0]) if is_err and not isinstance(rv.fields[0], Opaque) else None
+        label = "eval_expression/%s" % arm
+        pfx = "x.0.%s" % arm
+        if arm == "ProcedureCall":
+            operands = ex.deref(ex.project(("DC", body, "ProcedureCall"), ("f", 1, "std::vec::Vec<parser::Expression>")))
+            n = skel.seq_len_term(operands)
+            names_ok = all(e["expr"] == (pfx + ".0" if i == 0 else "%s.1[%d]" % (pfx, i - 1)) for i, e in enumerate(evs))
+            post.append(z3.BoolVal(names_ok))           # operator first, operands left to right, each at most once
+            post.append(z3.BoolVal(len(gets) == 0 and len(sets) == 0 and len(lits) == 0 and len(applies) <= 1))
+            if errs:
+                post.append(z3.BoolVal(len(errs) == 1 and not applies and is_err))
+                j = len(evs) - 1
+                if j == 0:
+                    post.append(z3.BoolVal(rv.fields[0] is errs[0]["error"]))
+                else:
+                    post.append(z3.BoolVal(rv.fields[0] is errs[0]["error"] or err_kind == "TypeMisMatch"))
+            else:
+                post.append(z3.IntVal(len(evs)) == n + 1)       # every operand was evaluated
+                opv = oks[0]["value"]
+                is_proc = ex.lazy_tag(opv) == PROC
+                if applies:
+                    a = applies[0]
+                    payload = ex.project(("DC", opv, "Procedure"), ("f", 0, "values::Procedure<R>"))
+                    argv = a["args"]
+                    same_args = isinstance(argv, SeqObj) and isinstance(argv.ln, int) and argv.ln == len(oks) - 1 and all(argv.items[i].v is oks[i + 1]["value"] for i in range(argv.ln))
+                    post.append(z3.And(is_proc, z3.BoolVal(a["proc"] is payload), z3.BoolVal(same_args)))
+                    # the call's result is the result of the application
+                    res = a["result"]
+                    if is_ok:
+                        post.append(z3.BoolVal(rv.fields[0] is ex.project(("DC", res, "Ok"), ("f", 0, "values::Value<R>"))))
+                    else:
+                        post.append(z3.BoolVal(is_err and rv.fields[0] is ex.project(("DC", res, "Err"), ("f", 0, "error::Located<error::ErrorData>"))))
+                else:
+                    loc_ok = False
+                    if is_err and err_kind == "TypeMisMatch":
+                        e = ex.deref(rv.fields[0])
+                        loc_ok = skel.name_of(ex, e.fields[1]) == pfx + ".0.1" or getattr(e.fields[1], "name", None) == pfx + ".0.1"
+                    post.append(z3.And(z3.Not(is_proc), z3.BoolVal(is_err and err_kind == "TypeMisMatch" and loc_ok)))
+        elif arm == "Conditional":
+            names = [e["expr"] for e in evs]
+            post.append(z3.BoolVal(bool(names) and names[0] == pfx + ".0.0" and len(names) <= 2 and not applies and not gets and not sets and not lits))
+            if errs:
+                post.append(z3.BoolVal(is_err and rv.fields[0] is errs[0]["error"] and events[-1]["kind"] == "eval_err"))
+            else:
+                tv = oks[0]["value"]
+                is_false = z3.And(ex.lazy_tag(tv) == BOOL, z3.Not(ex.project(("DC", tv, "Boolean"), ("f", 0, "bool"))))
+                if len(names) == 2:
+                    if names[1] == pfx + ".0.1":
+                        post.append(z3.Not(is_false))
+                    elif names[1] == pfx + ".0.2.Some.0":
+                        post.append(is_false)
+                    else:
+                        post.append(z3.BoolVal(False))
+                    post.append(z3.BoolVal(is_ok and rv.fields[0] is oks[1]["value"]))
+                else:
+                    alt = ex.project(ex.deref(ex.project(("DC", body, "Conditional"), ("f", 0, "?"))), ("f", 2, "?")) if False else None
+                    post.append(is_false)
+                    post.append(z3.BoolVal(is_ok and isinstance(rv.fields[0], Adt) and rv.fields[0].variant == "Void"))
+        elif arm == "Symbol":
+            post.append(z3.BoolVal(len(gets) == 1 and not evs and not applies and not sets and getattr(gets[0]["name"], "t", None) is not None))
+            if gets:
+                nm = gets[0]["name"]
+                ident = ex.project(("DC", body, "Symbol"), ("f", 0, "std::string::String"))
+                post.append(z3.BoolVal(nm is ident or (hasattr(nm, "t") and hasattr(ident, "t") and nm.t.eq(ident.t))))
+                if is_ok:
+                    post.append(z3.BoolVal(rv.fields[0] is gets[0]["value"]))
+                else:
+                    loc = ex.deref(rv.fields[0]).fields[1] if is_err and err_kind else None
+                    post.append(z3.BoolVal(err_kind == "UnboundedSymbol" and getattr(loc, "name", None) == "x.1"))
+        elif arm == "Assignment":
+            post.append(z3.BoolVal(len(evs) == 1 and evs[0]["expr"].startswith(pfx + ".1") and not applies and not gets and len(sets) <= 1))
+            if errs:
+                post.append(z3.BoolVal(is_err and rv.fields[0] is errs[0]["error"] and not sets))
+            elif sets:
+                post.append(z3.BoolVal(sets[0]["value"] is oks[0]["value"]))
+                if is_ok:
+                    post.append(z3.BoolVal(isinstance(rv.fields[0], Adt) and rv.fields[0].variant == "Void"))
+                else:
+                    post.append(z3.BoolVal(rv.fields[0] is sets[0]["error"]))
+            else:
+                post.append(z3.BoolVal(False))
+        elif arm == "Procedure":
+            good = False
+            if is_ok and isinstance(rv.fields[0], Adt) and rv.fields[0].variant == "Procedure":
+                p = rv.fields[0].fields[0]
+                if isinstance(p, Adt) and p.variant == "User":
+                    lam, env2 = p.fields
+                    good = getattr(lam, "name", None) == pfx + ".0" and isinstance(env2, Ref) and env2.cell is envcell
+            post.append(z3.BoolVal(good and not events))
+        elif arm in ("Quote", "Datum", "Primitive"):
+            good = len(lits) == 1 and len(events) == 1 and (lits[0]["datum"] or "").startswith(pfx + ".0")
+            if good:
+                res = lits[0]["result"]
+                if is_ok:
+                    good = rv.fields[0] is ex.project(("DC", res, "Ok"), ("f", 0, "values::Value<R>"))
+                else:
+                    good = is_err and rv.fields[0] is ex.project(("DC", res, "Err"), ("f", 0, "error::Located<error::ErrorData>"))
+            post.append(z3.BoolVal(good))
+        elif arm == "Period":
+            post.append(z3.BoolVal(is_err and err_kind == "UnexpectedExpression" and not events))
+        else:
+            post.append(z3.BoolVal(False))
+        chk.oblige(ex, unit, label + ": sub-forms evaluated exactly once in the prescribed order in the same environment; result/error as the evaluation rules prescribe", z3.And(*post), {}, replay)
+
+    ex.panic_hook = lambda info: chk.oblige(ex, unit, "no-panic", z3.BoolVal(False), {}, replay)
+    skel.run_eval_expression(chk, ex, on_path)
+
+
+# ================================================================================================ native `apply`
+def spec_native_apply(chk, tail_finding=False):
+    from ..mir import ENUMS
+    from ..core import IterObj
+    nat = chk.ws.runner("dev")
+    unit = "builtin apply (apply_procedure stubbed)"
+    chk.region_ns = {}
+    replay = lambda vals: eval_probe(nat)
+    PROC = ENUMS["Value"].index("Procedure")
+    PAIR = ENUMS["Value"].index("Pair")
+    for k in range(0, 3):
+        for last_kind in ("none", "list0", "list1", "list2", "nonlist"):
+            if last_kind == "none" and k > 0:
+                continue
+            ex = chk.executor(True)
+
+            @skel.stub(ex, r"::apply_procedure$", "apply_procedure -> an opaque result, passed through; logged")
+            def apply_proc(ex, callee, args, rt):
+                r = Lazy("std::result::Result<values::Value<R>, error::Located<error::ErrorData>>", "apply_result")
+                ex.log("apply", proc=ex.deref(args[0]), args=ex.deref(args[1]), env=args[2], result=r)
+                yield r
+
+            @skel.stub(ex, r"GenericPair<values::Value<R>> as IntoIterator>::into_iter$", "iteration over a list value: its elements in order (GenericPair's iterator is not encoded here)")
+            def pair_iter(ex, callee, args, rt):
+                lst = ex.deref(args[0])
+                if not (isinstance(lst, Adt) and lst.ty == "ListOf"):
+                    raise Unsupported("into_iter of %r" % (lst,))
+                yield IterObj("seq", seq=SeqObj("listitems", "?", [Cell(x) for x in lst.fields], len(lst.fields), len(lst.fields)), pos=0, by_ref=False, mut=False)
+
+            procv = Lazy("values::Value<R>", "procv")
+            leads = [Lazy("values::Value<R>", "lead%d" % i) for i in range(k)]
+            items = []
+            vals = [procv] + leads
+            if last_kind.startswith("list"):
+                m = int(last_kind[4:])
+                items = [Lazy("values::Value<R>", "item%d" % i) for i in range(m)]
+                vals.append(Adt("Value", "Pair", [Ref(Cell(Adt("ListOf", None, items)))]))
+            elif last_kind == "nonlist":
+                nl_ = Lazy("values::Value<R>", "lastv")
+                ex.ctx.add(ex.lazy_tag(nl_) != PAIR)
+                vals.append(nl_)
+            seq = SeqObj("args", "values::Value<R>", [Cell(v) for v in vals], len(vals), len(vals))
+            envrc = Ref(Cell(Opaque("Environment", "env"), "apply_env"))
+            f = ex.resolve("apply")
+            ex.panic_hook = lambda info, ex=ex: chk.oblige(ex, unit, "no-panic", z3.BoolVal(False), {}, replay)
+            for rv in ex.run(f, [seq, envrc]):
+                chk.path(unit)
+                aps = [e for e in ex.events if e["kind"] == "apply"]
+                is_proc = ex.lazy_tag(procv) == PROC
+                is_err = isinstance(rv, Adt) and rv.variant == "Err"
+                kind = nl.err_kind(ex, rv.fields[0]) if is_err and not isinstance(rv.fields[0], Opaque) else None
+                post = []
+                if aps:
+                    a = aps[0]
+                    want = leads + items
+                    argv = a["args"]
+                    same = isinstance(argv, SeqObj) and isinstance(argv.ln, int) and argv.ln == len(want) and all(argv.items[i].v is want[i] for i in range(len(want)))
+                    payload = ex.project(("DC", procv, "Procedure"), ("f", 0, "values::Procedure<R>"))
+                    post += [is_proc, z3.BoolVal(len(aps) == 1 and same and a["proc"] is payload and rv is a["result"] and last_kind != "nonlist")]
+                else:
+                    post.append(z3.BoolVal(is_err and kind == "TypeMisMatch"))
+                    post.append(z3.Or(z3.Not(is_proc), z3.BoolVal(last_kind == "nonlist")))
+                chk.oblige(ex, unit, "apply passes the leading arguments followed by the elements of the last (list) argument, in order, to ONE application of the procedure; non-procedure / non-list => TypeMisMatch",
+                           z3.And(*post), {}, replay)
+                if tail_finding and aps:
+                    # C02: the procedure handed to apply is entered by a nested apply_procedure (a Rust-level recursion), not handed back to the trampoline
+                    chk.oblige(ex, unit, "the procedure handed to apply is not entered through a nested evaluator call", z3.BoolVal(False), {"always": z3.BoolVal(True)}, lambda vals: apply_tail_probe(nat))
+
+
+_ATP = {}
+
+
+def apply_tail_probe(nat):
+    if id(nat) not in _ATP:
+        from ..harness import hexs
+        prog = "(define (loop n) (if (= n 0) 'done (apply loop (list (- n 1)))))\n(loop 200000)"
+        out = [x.strip() for x in nat.cmd("eval %s" % hexs(prog)).split(" ;; ")]
+        bad = out[-1] != "OK Y " + "done".encode().hex()
+        _ATP[id(nat)] = (bad, "program %r gives %s (a loop whose tail call goes through apply must run in bounded stack)" % (prog, out[-1][:40]))
+    return _ATP[id(nat)]
